@@ -138,6 +138,25 @@ def evaluator_bookkeeping(ctx):
     ctx.floor(14)
 
 
+def _frame_vars(unit):
+    """locals of the trace reader that hold a frame map: the scope parameter, rebound to <x>.maps[0], and
+    values read from LAST_CHILD_SCOPE"""
+    out = {'scope'}
+    changed = True
+    while changed:
+        changed = False
+        for n in unit.own_nodes():
+            if isinstance(n, ast.Assign) and is_name(n.targets[0]) and n.targets[0].id not in out:
+                v = n.value
+                root = v
+                while isinstance(root, (ast.Subscript, ast.Attribute)):
+                    root = root.value
+                if isinstance(root, ast.Name) and root.id in out and isinstance(v, (ast.Subscript, ast.Attribute, ast.Name)):
+                    out.add(n.targets[0].id)
+                    changed = True
+    return out
+
+
 @rule('C05.2')
 def key_agreement(ctx):
     p = ctx.program
@@ -328,10 +347,16 @@ def record_layout(ctx):
         ctx.ob(len(k) == 5 and k[1:4] == want, u, 'stack record is [frame, Spec, T, CUR_ERROR, branches]: %s' % norm(a.args[0]),
                'got %s' % k, node=a)
     err_idx = 3
+    params = set(u.all_params)
+
+    def root_name(e):
+        while isinstance(e, ast.Subscript):
+            e = e.value
+        return e.id if isinstance(e, ast.Name) else None
     idx_uses = [n for n in u.own_nodes() if isinstance(n, ast.Subscript) and isinstance(n.slice, ast.Constant)
                 and isinstance(n.slice.value, int) and not isinstance(n.slice.value, bool)
-                and (is_name(n.value) and n.value.id in ('cur', 'nxt') or
-                     (isinstance(n.value, ast.Subscript) and is_name(n.value.value, 'stack')))]
+                and root_name(n.value) is not None and root_name(n.value) not in params
+                and not isinstance(n.value, ast.Attribute)]
     ctx.require(len(idx_uses) >= 4, '_unpack_stack: error-slot post-processing not found')
     for n in idx_uses:
         ctx.ob(n.slice.value == err_idx, u, 'post-processing addresses the error slot (%d): %s' % (err_idx, norm(n)), node=n)
@@ -349,14 +374,26 @@ def record_layout(ctx):
         body_src = ' '.join(norm(s) for s in loops[0].body)
         ctx.ob(('%s is not None' % names[3]) in body_src and 'root_error' in body_src, r,
                'slot 3 is treated as the error of the level: %s' % names[3])
-        fmt_t = [c for s in loops[0].body for c in ast.walk(s) if isinstance(c, ast.Call) and is_name(c.func, 'fmt_t')]
+        # formatter closures by role: X = <maker>('Target') / ('Spec'); the recursion lambda calls this function
+        labels = {}
+        rec_names = set()
+        for n in r.own_nodes():
+            if isinstance(n, ast.Assign) and is_name(n.targets[0]) and isinstance(n.value, ast.Call) and n.value.args \
+                    and isinstance(n.value.args[0], ast.Constant) and n.value.args[0].value in ('Target', 'Spec'):
+                labels.setdefault(n.value.args[0].value, set()).add(n.targets[0].id)
+            if isinstance(n, ast.Assign) and is_name(n.targets[0]) and isinstance(n.value, ast.Lambda) and \
+                    isinstance(n.value.body, ast.Call) and callee_qual(p, r, n.value.body) == 'core.format_target_spec_trace':
+                rec_names.add(n.targets[0].id)
+        fmt_t = [c for s in loops[0].body for c in ast.walk(s) if isinstance(c, ast.Call) and isinstance(c.func, ast.Name)
+                 and c.func.id in labels.get('Target', ())]
         ctx.ob(bool(fmt_t) and all(is_name(c.args[0], names[2]) for c in fmt_t), r,
                'slot 2 is printed as the Target line: %s' % [norm(c) for c in fmt_t])
         fmt_s = [c for s in loops[0].body for c in ast.walk(s) if isinstance(c, ast.Call)
-                 and isinstance(c.func, ast.Name) and c.func.id in ('fmt_s', 'fmt_b')]
+                 and isinstance(c.func, ast.Name) and c.func.id in labels.get('Spec', ())]
         ctx.ob(len(fmt_s) >= 2 and all(is_name(c.args[0], names[1]) for c in fmt_s), r,
                'slot 1 is printed as the Spec line: %s' % [norm(c) for c in fmt_s])
-        rec = [c for s in loops[0].body for c in ast.walk(s) if isinstance(c, ast.Call) and is_name(c.func, 'recurse')]
+        rec = [c for s in loops[0].body for c in ast.walk(s) if isinstance(c, ast.Call) and isinstance(c.func, ast.Name)
+               and c.func.id in rec_names]
         ctx.ob(len(rec) >= 2, r, 'every branch of slot 4 is rendered recursively: %s' % [norm(c) for c in rec])
     ctx.floor(10)
 
@@ -386,8 +423,9 @@ def finalisation_wiring(ctx):
     ctx.ob(len(parts) == 1, su, 'the message ends with the original error lines: %s' % [norm(x) for x in parts])
     # recursion into branches keeps root_error and increases depth
     r = ctx.unit('core.format_target_spec_trace')
-    lam = [n for n in r.own_nodes() if isinstance(n, ast.Assign) and is_name(n.targets[0], 'recurse')
-           and isinstance(n.value, ast.Lambda)]
+    lam = [n for n in r.own_nodes() if isinstance(n, ast.Assign) and is_name(n.targets[0])
+           and isinstance(n.value, ast.Lambda) and isinstance(n.value.body, ast.Call)
+           and callee_qual(p, r, n.value.body) == 'core.format_target_spec_trace']
     ok = len(lam) == 1
     if ok:
         c = lam[0].value.body
